@@ -3,6 +3,7 @@ import Driver.SolverCmd
 import Driver.StrCmd
 import Driver.NetCmd
 import Driver.PathsCmd
+import Driver.GuardCmd
 open Lean PyRates.Driver
 
 def dispatch (comp : String) (j : Json) : Except String Json :=
@@ -13,6 +14,7 @@ def dispatch (comp : String) (j : Json) : Except String Json :=
   | "net" => netCmd j
   | "nettraj" => netTrajCmd j
   | "paths" => pathsCmd j
+  | "guard" => guardCmd j
   | _ => .error s!"unknown component {comp}"
 
 partial def loop (h : IO.FS.Stream) (out : IO.FS.Stream) : IO Unit := do
